@@ -9,6 +9,8 @@ pub fn dispatch(cmd: &str, c: &Value) -> Value {
     match cmd {
         "kmer_slide" => kmer_slide(c),
         "kmer_inv" => kmer_inv(c),
+        "kmer_restart" => kmer_restart(c),
+        "enum_kmers" => enum_kmers(c),
         "tuple_roundtrip" => tuple_roundtrip(c),
         "lz_roundtrip" => lz_roundtrip(c),
         "segment" => segment(c),
@@ -63,6 +65,33 @@ fn kmer_slide(c: &Value) -> Value {
         13 15, 14 16, 15 17, 16 18, 17 19, 18 20, 19 21, 20 22, 21 23, 22 24, 23 25, 24 26, 25 27, 26 28,
         27 29, 28 30, 29 31, 30 32, 31 33, 32 34);
     json!({ "code": code })
+}
+
+fn restart_k<const K: usize, const N: usize>(a: (&[u8], usize, &[u8])) -> u32 {
+    let mut pre = [0u8; N];
+    pre.copy_from_slice(&a.0[..N]);
+    let mut w = [0u8; K];
+    w.copy_from_slice(&a.2[..K]);
+    kmer_checks::restart_checks::<K, N>(&pre, a.1, &w)
+}
+
+fn kmer_restart(c: &Value) -> Value {
+    let k = c["k"].as_u64().unwrap() as usize;
+    let pre = bytes(&c["prefix"]);
+    let w = bytes(&c["w"]);
+    let p = c["p"].as_u64().unwrap() as usize;
+    let code = by_k!(k, restart_k, (&pre[..], p, &w[..]); 1 3, 2 4, 3 5, 4 6, 5 7, 6 8, 7 9, 8 10, 9 11, 10 12, 11 13, 12 14,
+        13 15, 14 16, 15 17, 16 18, 17 19, 18 20, 19 21, 20 22, 21 23, 22 24, 23 25, 24 26, 25 27, 26 28,
+        27 29, 28 30, 29 31, 30 32, 31 33, 32 34);
+    json!({ "code": code })
+}
+
+/// C20 (E2 part): enumerate_kmers on a contig with non-ACGT codes
+fn enum_kmers(c: &Value) -> Value {
+    let k = c["k"].as_u64().unwrap() as usize;
+    let seq = bytes(&c["seq"]);
+    let v = ragc_core::kmer_extract::enumerate_kmers(&seq, k);
+    json!({ "kmers": v.iter().map(|x| x.to_string()).collect::<Vec<_>>() })
 }
 
 fn kmer_inv(c: &Value) -> Value {
